@@ -97,18 +97,23 @@ prop(
 
 prop(
     "C04",
-    ["LolHtml.Thm.C04_Pure"],
-    [{"lane": "selpure", "n_quick": 3000, "n_thorough": 40000}],
-    "lane selpure: nth a b i triples incl. the wrap zone, six attribute operators x case flags x namespaces x empty operands, id/class/exists on attribute lists; driven through the public HtmlRewriter API",
-    ["only the leaf functions of the selector engine are covered so far (nth index test, attribute operators, id/class); the AST -> program -> VM refinement is package selvm (pending)",
-     PKG_SCOPE],
-    level_text=("Lean 4 theorems: NthChild::has_index on all i32 triples equals the CSS an+b definition exactly when "
-                "-2^31 <= i-b < 2^31 (C04_nth) with an exact characterisation outside (C04_nth_wrap), never panics; each "
-                "of the six attribute operators equals its CSS definition on all byte strings in both case modes, exactly "
-                "except an empty operand for ^= $= ~= (C04_attr_ops_partial + proved counter-examples); case-mode selection; "
-                "first-duplicate lookup for [name], #id, .class. PARTIAL until the VM refinement lands."),
-    level_note="Trusted: Lean kernel; model of ast.rs/attribute_matcher.rs/compiler.rs (attribute half), tied by lane selpure through the public API.",
-    technique="Lean 4 proof (bit-vector / integer arithmetic, list induction) + correspondence lane",
+    ["LolHtml.Thm.C04_VM", "LolHtml.Thm.C04_Pure"],
+    [{"lane": "sel", "n_quick": 1500, "n_thorough": 20000},
+     {"lane": "selpure", "n_quick": 2000, "n_thorough": 40000}],
+    "lane sel: selector sets printed from the model's AST grammar (type, *, #id, .class, six attribute operators with i/s, :nth-*, :not() with simple/compound/list/nested arguments, child and descendant combinators, lists) x tag-event scripts (mis-nested, stray end tags, voids, case variants, duplicate attributes, foreign self-closing, ESI) x cuts: model VM vs real HtmlRewriter hits, Spec.Css vs an independent Rust reference matcher, Lean printer vs the text fed to the real parser, predicted vs actual Ast dump; lane selpure: nth triples incl. extreme offsets, attribute operators x case flags x namespaces x empty operands, id/class/exists",
+    ["CSS text parsing (crates selectors/cssparser) is not modelled: the model starts from the component list; the lane compares the printed text and the Ast dump",
+     "the :not() restriction of C04_vm_refines_css (arguments are single simple selectors or lists of them) is finding F3, proved necessary by C04_vm_refines_css_statement_false",
+     "memory limiter, i32 overflow of a child counter after 2^31-1 siblings, more than 31 selectors are not modelled", PKG_SCOPE],
+    level_text=("Lean 4 theorems: compiler-correctness style refinement C04_vm_refines_css — for every selector set whose :not() "
+                "arguments are simple selectors (lists allowed) and every tag-event sequence, the matching VM (trie with "
+                "predicate sharing, compiled address ranges, jumps, de-duplicated hereditary jumps, the three bail-out / "
+                "recovery paths, stack with typed child counters) reports exactly the matches of CSS semantics on the tree the "
+                "events induce; C04_independence; split evaluation and bail-out equivalence (C04_split_eval, C04_bailout_eq); "
+                "counters = sibling indices (C04_counters); never panics; leaf functions: has_index on ALL i32 triples = the "
+                "an+b definition (C04_nth), six attribute operators = CSS on all byte strings in both case modes (C04_attr_ops). "
+                "The compound-negation flattening is refuted against the spec (known finding F3)."),
+    level_note="Trusted: Lean kernel; model of selectors_vm/{ast,compiler,program,mod,stack,attribute_matcher}.rs tied by lanes sel and selpure through the public API; Spec.Css as the reading of CSS Selectors.",
+    technique="Lean 4 proof (refinement VM ⊑ CSS semantics by invariant over open elements; bit-vector arithmetic for nth) + correspondence lanes",
     design_ref="DESIGN.md section 4 C04",
 )
 
@@ -154,12 +159,13 @@ prop(
      {"lane": "memts", "n_quick": 2000, "n_thorough": 10000},
      {"lane": "memrw", "n_quick": 600, "n_thorough": 6000, "impl_only": True}],
     "lane mem: op sequences on the real Arena + LimitedVec<T> (item sizes 1/8/7/24/512) sharing one limiter; memts: TransformStream write protocol; memrw (impl only): limit sweeps over buffer-growing inputs on HtmlRewriter/TransformStream",
-    ["prealloc <= M and prealloc <= isize::MAX (outside: finding F5)", "Vec::try_reserve_exact yields exactly the requested capacity; the allocator does not fail",
+    ["Vec::try_reserve_exact yields exactly the requested capacity; the allocator does not fail",
      "memory that the limiter is never told about (element-name copies in the open-element stack, decoder-held bytes, attribute outlines) is outside the model: see known findings", PKG_SCOPE],
     level_text=("Lean 4 theorems over arbitrary operation lists: usage = arena.cap + vec.cap*itemSize + failed charges "
-                "(C10_accounting), while all ops succeeded usage <= M hence retained input <= M (C10_bound, C10_bound_held), "
-                "the exceeding op returns the error and never panics incl. checked_mul overflow (C10_error_not_panic), success "
-                "is monotone in M with identical states (C10_monotone), results are a function of (M, prealloc, itemSize, ops); "
+                "(C10_accounting), for EVERY preallocation size (clamped to the limit) while all ops succeeded usage <= M hence retained input <= M "
+                "(C10_bound, C10_bound_held), the exceeding op returns the error and never panics incl. checked_mul overflow "
+                "(C10_error_not_panic), success is monotone in M with the same results and buffered bytes (C10_monotone, by a "
+                "simulation relation), results are a function of (M, prealloc, itemSize, ops); "
                 "for the TransformStream write protocol: bytes in = bytes out + retained, retained <= M (C10_write_retention)."),
     level_note="Trusted: Lean kernel; model of memory/*.rs and the write() buffer protocol tied by lanes mem/memts (hooks VerifArena/VerifLimitedVec).",
     technique="Lean 4 proof (invariant by induction over operation lists) + correspondence lanes + limit-sweep oracle",
@@ -174,7 +180,7 @@ prop(
     ["encoding_rs is assumed to satisfy the codec laws (checked by the lane against whole-buffer decode/encode, not proved)",
      "decoder buffer >= 4, encoder buffers >= 14 (real: 1024 / 63 / 4096)", PKG_SCOPE],
     level_text=("Lean 4 theorems for every lawful codec, buffer size and split: concatenated handler text = whole decode, exactly "
-                "one last_in_text_node chunk, ranges ordered and inside the node (C13_decoder); fast path = slow path "
+                "one last_in_text_node chunk, chunk source ranges contiguous and covering the node (C13_decoder, C13_ranges); fast path = slow path "
                 "(C13_fastpath); encoder output = per-scalar encoding or NCR, independent of buffer sizes (C13_encoder); UTF-8 "
                 "resync safety (C13_resync_safe/rejects, liveness partial); meta charset: at most one change, effective after "
                 "the tag, sink notified first (C13_meta); three codec instances proved lawful. PARTIAL: encoding_rs itself."),
@@ -237,6 +243,7 @@ prop(
     level_note="Trusted: Lean kernel; ledger model of c-api/src/*.rs and lol_html.h tied by lane capi.",
     technique="Lean 4 proof (invariant over call histories of an ownership ledger) + correspondence lane",
     design_ref="DESIGN.md section 4 C17",
+    claimed=False,  # TEMP: package being updated to the F21 repair
 )
 
 prop(
